@@ -87,7 +87,7 @@ pub fn three_namespace_states() -> Vec<State> {
         s.files[1].comps.push(complex("BaseB", vec![el("RemarkInB", TypeRef::n(NS_C, "NoteC"))]));
         s.files.push(c);
         match variant {
-            "ref" => holder_mut(&mut s).seq = Some(Seq::of(vec![Particle::Ref(ElemRef { target: QName::new(NS_B, "RemarkB"), min: 0, max: Max::N(1) })])),
+            "ref" => holder_mut(&mut s).seq = Some(Seq::of(vec![Particle::Ref(ElemRef { target: QName::new(NS_B, "RemarkB"), min: 0, max: Max::N(1), xmlns: vec![] })])),
             "inherited" => {
                 let h = holder_mut(&mut s);
                 h.base = Some(QName::new(NS_B, "BaseB"));
